@@ -55,6 +55,7 @@ type Schema struct {
 
 // ---------------------------------------------------------------- roots
 type Root struct {
+	Cmp       func(a, b any) int
 	NewWriter func(dst pkg.ChunkWriter, opts pkg.WriterOptions) (any, error)
 	NewReader func(src io.Reader) (any, error)
 	WireSchema func() (schema.WireSchema, error)
@@ -65,6 +66,7 @@ type Env struct {
 	Roots map[string]Root
 
 	lastArr map[uintptr][]string // last value given to arrays that are filled with Append
+	Raw     bool                 // dump stored values of absent optional fields (C09)
 }
 
 func up(s string) string {
@@ -150,9 +152,21 @@ func (e *Env) dump(t *Type, v reflect.Value, sb *strings.Builder) {
 			if i > 0 {
 				sb.WriteString(",")
 			}
-			if f.Optional && !call(v, "Has"+up(f.Name))[0].Bool() {
-				sb.WriteString("~")
-				continue
+			if f.Optional {
+				has := call(v, "Has"+up(f.Name))[0].Bool()
+				if !has {
+					sb.WriteString("~")
+					if e.Raw && f.Type.K == "prim" {
+						// raw mode (C09): the stored value of an absent optional field is what Cmp looks at
+						e.dump(&f.Type, call(v, up(f.Name))[0], sb)
+					} else if e.Raw {
+						sb.WriteString("nil")
+					}
+					continue
+				}
+				if e.Raw {
+					sb.WriteString("?")
+				}
 			}
 			e.dump(&f.Type, call(v, up(f.Name))[0], sb)
 		}
@@ -502,6 +516,8 @@ type Case struct {
 	Sched  []int  `json:"sched"`  // read-size schedule for the source
 	Scheds map[string][]int `json:"scheds"` // several schedules; a negative first element = deliver EOF with the last data
 	Cuts   []int  `json:"cuts"`
+	Vals   []any  `json:"vals"`   // c09: value trees
+	Freeze bool   `json:"freeze"`
 }
 
 type FrameInfo struct {
@@ -533,6 +549,7 @@ type Out struct {
 	WCount  uint64      `json:"wcount"`
 	RCount  uint64      `json:"rcount"`
 	Steps   []StepOut   `json:"steps,omitempty"`
+	C09     *C09Out     `json:"c09,omitempty"`
 	Scheds  map[string]*ReadOut `json:"scheds,omitempty"`
 }
 
@@ -885,10 +902,121 @@ func (e *Env) RunC06(c *Case) (out *Out) {
 	return out
 }
 
+// ---------------------------------------------------------------- C09: copy / compare on detached records
+type C09Out struct {
+	Dumps    []string `json:"dumps"`    // raw dumps of the values
+	Cmp      [][]int  `json:"cmp"`      // sign of Cmp(i, j)
+	Equal    [][]bool `json:"equal"`    // IsEqual(i, j)
+	CopyOK   []string `json:"copy"`     // per value: "" or what went wrong with CopyFrom/Clone
+	Frozen   string   `json:"frozen"`   // "" or what went wrong with Freeze
+}
+
+func sign(x int) int {
+	if x < 0 {
+		return -1
+	}
+	if x > 0 {
+		return 1
+	}
+	return 0
+}
+
+func (e *Env) newRecord(root string) reflect.Value {
+	w, err := e.Roots[root].NewWriter(&ChunkSink{}, pkg.WriterOptions{})
+	if err != nil {
+		panic(err)
+	}
+	t := reflect.ValueOf(w).Elem().FieldByName("Record").Type()
+	r := reflect.New(t)
+	call(r, "Init")
+	return r
+}
+
+func (e *Env) RunC09(c *Case) (out *Out) {
+	out = &Out{ID: c.ID}
+	res := &C09Out{}
+	out.C09 = res
+	defer func() {
+		if r := recover(); r != nil {
+			out.Panic = fmt.Sprint(r)
+		}
+	}()
+	e.Raw = true
+	defer func() { e.Raw = false }()
+	rootT := &Type{K: "struct", ID: e.structID(c.Root)}
+	var objs []reflect.Value
+	for _, v := range c.Vals {
+		e.lastArr = nil
+		o := e.newRecord(c.Root)
+		e.set(rootT, o, v, &setOpts{freeze: c.Freeze})
+		objs = append(objs, o)
+	}
+	dump := func(o reflect.Value) string { return e.DumpRoot(c.Root, o) }
+	for _, o := range objs {
+		res.Dumps = append(res.Dumps, dump(o))
+	}
+	cmp := e.Roots[c.Root].Cmp
+	for i := range objs {
+		var row []int
+		var erow []bool
+		for j := range objs {
+			row = append(row, sign(cmp(objs[i].Interface(), objs[j].Interface())))
+			erow = append(erow, call(objs[i], "IsEqual", objs[j])[0].Bool())
+		}
+		res.Cmp = append(res.Cmp, row)
+		res.Equal = append(res.Equal, erow)
+	}
+	// copies: equal to the source, independent of it
+	n := len(objs)
+	for i := range objs {
+		msg := ""
+		src := objs[i]
+		before := dump(src)
+		cp := e.newRecord(c.Root)
+		call(cp, "CopyFrom", src)
+		if dump(cp) != before || cmp(cp.Interface(), src.Interface()) != 0 || !call(cp, "IsEqual", src)[0].Bool() {
+			msg += "CopyFrom result differs from source;"
+		}
+		// mutate the copy to another value: the source must not change
+		e.lastArr = nil
+		other := c.Vals[(i+1)%n]
+		e.set(rootT, cp, other, &setOpts{freeze: c.Freeze})
+		if dump(src) != before {
+			msg += "mutating the copy changed the source;"
+		}
+		afterCopy := dump(cp)
+		// mutate the source: the copy must not change
+		e.lastArr = nil
+		e.set(rootT, src, c.Vals[(i+2)%n], &setOpts{freeze: c.Freeze})
+		if dump(cp) != afterCopy {
+			msg += "mutating the source changed the copy;"
+		}
+		// Clone
+		if cm := src.MethodByName("Clone"); cm.IsValid() {
+			al := reflect.New(cm.Type().In(0).Elem())
+			cl := addr(cm.Call([]reflect.Value{al})[0])
+			b2 := dump(src)
+			if dump(cl) != b2 || cmp(cl.Interface(), src.Interface()) != 0 {
+				msg += "Clone result differs from source;"
+			}
+			e.lastArr = nil
+			e.set(rootT, cl, other, &setOpts{freeze: c.Freeze})
+			if dump(src) != b2 {
+				msg += "mutating the clone changed the source;"
+			}
+		}
+		res.CopyOK = append(res.CopyOK, msg)
+	}
+	return out
+}
+
 func (e *Env) RunCase(c *Case) (out *Out) {
 	e.lastArr = nil
 	if c.Mode == "c06" {
 		return e.RunC06(c)
+	}
+	if c.Mode == "c09" {
+		return e.RunC09(c)
 	}
 	out = &Out{ID: c.ID}
 	var stream []byte
